@@ -64,8 +64,22 @@ func (r *vReader) Seek(offset int64, whence int) (int64, error) {
 func vStart(c *Cache, fsys *vfs.FS, newData []byte, L int) (old []byte, haveOld bool, other []byte) {
 	other = vData(L)
 	rt.Assert(c.PutBytes(vIDs[1], other) == nil, "setup-put-other")
-	switch rt.IntRange(0, 2) {
+	switch rt.IntRange(0, 3) {
 	case 0:
+	case 3:
+		// the same content was stored earlier and its output file has since
+		// been trimmed while the index entry stayed alive (Get refreshes
+		// only the index entry): a state ordinary use produces
+		old = append([]byte{}, newData...)
+		haveOld = true
+		// (the unrelated entry must not share that output file)
+		if len(other) == len(newData) {
+			rt.Assume(rt.Not(rt.BytesEq(other, newData)))
+		}
+		rt.Assert(c.PutBytes(vIDs[0], old) == nil, "setup-put-old")
+		delete(fsys.Nodes, vDataPath(c, OutputID(rt.Hash(old))))
+		rt.Reach("output-trimmed-index-kept")
+		return
 	case 1:
 		old = append([]byte{}, newData...)
 		haveOld = true
